@@ -24,6 +24,10 @@ C = {
  "C01": dict(text="All dictionaries of each graph evaluated in several orders on ONE long-lived real graph; every outcome equals a fresh copy's and the specification's; TLC checks KeysSufficient (the reason a memo keyed on keys() is transparent).", ref="5 C01"),
  "C06": dict(text="Recording bodies / apply functions / bind functions / callbacks / effects: construction runs nothing, and during evaluate, validate, keys, explain every callable that runs belongs to a node of the specification's Visit set (the selected path).", ref="5 C06"),
  "C12": dict(text="Failures at the public boundary (four exception types raised by user callables per the specification's Raises sets): EvaluationError, source identity, cause chain to the original exception object / the specification's missing key; histories on one long-lived graph show a failure stored nothing. One open known finding (coalesce fall-through vs keys).", ref="5 C12"),
+ "C07": dict(text="spec/Interface.tla (definitions accepted / rejected atomically) replayed on real @interface/@implements classes for every sequence of <= 2 definitions; family dispatch of the expression machine replays every history interleaving register() with evaluations on one long-lived graph against the specification's value under the tables at that time (stored values exempt).", ref="5 C07"),
+ "C16": dict(text="Per-evaluation switch settings (cache 5 x effects 3 x logging 3) inside histories on a long-lived graph of the caching family: values equal the all-off fresh value; disabled cache neither reads nor writes; no effect / log record when disabled; exactly one INFO record per dataset evaluation not served from a cache (counted by a pass-through handler).", ref="5 C16"),
+ "C17": dict(text="spec/CacheImpl.tla: Cached.evaluate micro-steps against a contract-respecting but unreliable backend; TLC checks FaultyStillCorrect / AtMostRecompute for every fault assignment; every complete history of the exported graph is replayed with a scripted Cache subclass (call sequence, values, run counts), and random longer histories are validated by TLC (Trace_Cache).",
+             note="one cached dataset, two option values, faults on the first 5 (quick) / 8 (thorough) backend calls exhaustively, random beyond; the backend never returns a wrong value (contract)", tech="TLC model checking of a micro-step model + exhaustive replay of its histories with fault injection + TLC trace validation", ref="5 C17"),
  "C02": dict(text="Body/effect execution counters against the specification's demand analysis (Permit): one run per distinct demand, none on exact repeat / unmentioned keys / permuted key order; effects only after their body.", ref="5 C02"),
 }
 checks = []
